@@ -337,7 +337,7 @@ func (g gcfg) nearMiss(t *rapid.T, s *model.V) *model.V {
 			}
 		}
 		if len(e.Names) > 0 && chance(t, "nm_drop", 50) {
-			return model.Project(e, e.Names[1:])
+			return g.fixSugar(t, model.Project(e, e.Names[1:]))
 		}
 		return g.fixSugar(t, model.MergeTup(e, model.Tup(pick(t, "nm_name", plainNames...), genNum(t, "num"))))
 	default:
@@ -805,16 +805,28 @@ func (r *renderer) tupleComputed(g gcfg, v *model.V, pct int) string {
 	case "merge":
 		// left gets a random subset (possibly with overwritten values), right the rest
 		var left, right []string
+		var ln, rn []string
+		var lv, rv []*model.V
 		for i, n := range v.Names {
 			switch rapid.IntRange(0, 2).Draw(t, "mside") {
 			case 0:
 				left = append(left, field(n, v.Vals[i]))
+				ln, lv = append(ln, n), append(lv, v.Vals[i])
 			case 1:
 				right = append(right, field(n, v.Vals[i]))
+				rn, rv = append(rn, n), append(rv, v.Vals[i])
 			default:
-				left = append(left, model.SrcName(n)+": "+model.SrcNum(float64(rapid.IntRange(5, 9).Draw(t, "junk"))))
+				junk := float64(rapid.IntRange(5, 9).Draw(t, "junk"))
+				left = append(left, model.SrcName(n)+": "+model.SrcNum(junk))
+				ln, lv = append(ln, n), append(lv, model.Num(junk))
 				right = append(right, field(n, v.Vals[i]))
+				rn, rv = append(rn, n), append(rv, v.Vals[i])
 			}
+		}
+		if pinnedSugarLiteral(ln, lv) || pinnedSugarLiteral(rn, rv) {
+			// one side alone would be a literal like (@: {}, @item: 2), whose panic the
+			// repository's own tests pin down (C10's business): write the tuple whole
+			break
 		}
 		return "((" + strings.Join(left, ", ") + ") +> (" + strings.Join(right, ", ") + "))"
 	case "drop":
@@ -837,6 +849,28 @@ func (r *renderer) tupleComputed(g gcfg, v *model.V, pct int) string {
 		parts = append(parts, field(n, v.Vals[i]))
 	}
 	return "(let tt = (" + strings.Join(parts, ", ") + "); tt)"
+}
+
+// pinnedSugarLiteral: a tuple literal with exactly the names @ and one of
+// @item/@char/@byte whose index (or char/byte) is not a number panics by design.
+func pinnedSugarLiteral(names []string, vals []*model.V) bool {
+	if len(names) != 2 {
+		return false
+	}
+	var at, x *model.V
+	attr := ""
+	for i, n := range names {
+		switch n {
+		case "@":
+			at = vals[i]
+		case "@item", "@char", "@byte":
+			attr, x = n, vals[i]
+		}
+	}
+	if at == nil || x == nil {
+		return false
+	}
+	return !at.IsNum() || (attr != "@item" && !x.IsNum())
 }
 
 func inNamesList(names []string, n string) bool {
